@@ -531,7 +531,11 @@ def r_dom_store(ctx):
             tb = [t_ for (t_, l_) in b.succ(bbk) if l_ == lab][0]
             if not any(p_ in b.reach([(tb, 0)]) for p_ in ps_):
                 continue
-            r_ = b.reach([(tb, 0)], avoid=ps_)
+            # `dominated` does not change after the scan: a later edge asserting the opposite is infeasible on this path (an assertion that
+            # mentions the flag before the `if !dominated` is not a second decision)
+            opp_ = set((b2_, l2_) for b2_ in b.live_blocks() if b.term(b2_)['k'] == 'switch' for (t2_, l2_) in b.succ(b2_)
+                       if any(a_[0] == 'T' and a_[1] == dv for a_ in M.lit_atoms(M.edge_literal(b, b2_, l2_))))
+            r_ = b.reach([(tb, 0)], cut_edges=opp_, avoid=ps_)
             if any(p_ in r_ for p_ in ret_points(b)):
                 ok2 = False
         good = good and ok1 and ok2
